@@ -259,6 +259,7 @@ func (s *Sorter) SortedBlocks(ctx context.Context, removedCols map[int]struct{},
 		blkPK := make([]string, 0, len(pkIndices))
 		rowPK := make([]string, len(pkIndices))
 		prevRowPK := make([]string, len(pkIndices))
+		firstRow := true
 		dec := objects.NewStrListDecoder(true)
 		n := len(s.chunks)
 		chunkRows := make([]objects.StrList, n)
@@ -319,7 +320,8 @@ func (s *Sorter) SortedBlocks(ctx context.Context, removedCols map[int]struct{},
 			copy(rowPK, objects.StrList(minRow).ReadColumns(pkIndices))
 			minRow = r.RemoveFrom(minRow)
 			row := dec.Decode(minRow)
-			pkOK := pkIsDifferent(rowPK, prevRowPK)
+			pkOK := pkIsDifferent(rowPK, prevRowPK) || firstRow
+			firstRow = false
 			if pkOK {
 				m := len(blk)
 				blk = blk[:m+1]
@@ -410,6 +412,7 @@ func (s *Sorter) SortedRows(ctx context.Context, removedCols map[int]struct{}, e
 		chunkIdx := make([]int, n)
 		pk := make([]string, len(pkIndices))
 		prevPK := make([]string, len(pkIndices))
+		firstRow := true
 		for {
 			minInd := 0
 			var minRow []string
@@ -463,7 +466,8 @@ func (s *Sorter) SortedRows(ctx context.Context, removedCols map[int]struct{}, e
 				break
 			}
 			slice.CopyValuesFromIndices(minRow, pk, pkIndices)
-			pkOK := pkIsDifferent(pk, prevPK)
+			pkOK := pkIsDifferent(pk, prevPK) || firstRow
+			firstRow = false
 			if pkOK {
 				rows = append(rows, s.removeCols(minRow, removedCols))
 				if s.profiler != nil {
